@@ -79,7 +79,7 @@ theorem inv_step {stream0 : List Frame} {s s' : State} {e : Event}
   | take seq =>
     simp only [step] at h
     split at h
-    · next f rest hl hst hs =>
+    · next f rest hrd hl hst hs =>
       split at h
       · next hid =>
         simp only [Option.some.injEq] at h; subst h
@@ -225,8 +225,8 @@ theorem inv_step {stream0 : List Frame} {s s' : State} {e : Event}
           | some c0 => simp [hc] at hst; exact ⟨c0, rfl, hst⟩
         have hown := hi.own hh c0 pos f hc0 (by rw [hw]; rfl)
         have key : ∀ st' : Status, (st'.frame = some (pos, f) ∨ st'.frame = none) → (∀ p f', st' ≠ .reading p f') →
-            ∀ cl, Inv stream0 { s with rlock := none, calls := setStatus s hh st', closed := cl } := by
-          intro st' hfr hnr cl
+            ∀ cl rd, Inv stream0 { s with rlock := none, calls := setStatus s hh st', closed := cl, rdead := rd } := by
+          intro st' hfr hnr cl rd
           constructor
           · exact hi.rest
           · intro i c hc
@@ -272,9 +272,9 @@ theorem inv_step {stream0 : List Frame} {s s' : State} {e : Event}
             · have := hi.reader i c p f' hc hr
               rw [hl] at this; simp at this; omega
         cases o <;> (simp only [Option.some.injEq] at h; subst h)
-        · exact key _ (Or.inl rfl) (by intro p f' hh'; cases hh') s.closed
-        · exact key _ (Or.inl rfl) (by intro p f' hh'; cases hh') s.closed
-        · exact key _ (Or.inr rfl) (by intro p f' hh'; cases hh') true
+        · exact key _ (Or.inl rfl) (by intro p f' hh'; cases hh') s.closed s.rdead
+        · exact key _ (Or.inl rfl) (by intro p f' hh'; cases hh') s.closed s.rdead
+        · exact key _ (Or.inr rfl) (by intro p f' hh'; cases hh') true true
       · cases h
     · cases h
   | close =>
@@ -407,6 +407,43 @@ theorem unreadable_body_closes (s s' : State) (seq : Nat) (h : step s (.finish s
     · simp at h; subst h; rfl
     · cases h
   · cases h
+
+/-- the read side is dead only on a closed conn (`abortRead` and the failed-`Peek` branch close first) -/
+theorem rdead_closed_step (s s' : State) (e : Event) (hrc : s.rdead = true → s.closed = true)
+    (h : step s e = some s') : s'.rdead = true → s'.closed = true := by
+  cases e <;> simp only [step] at h
+  all_goals
+    repeat' split at h
+    all_goals first
+      | (simp only [Option.some.injEq] at h; subst h; simp_all; done)
+      | cases h
+
+/-- **no_take_after_read_failure** — after a body that could not be read to its end (`finish io`: deadline in the
+middle of a response, bytes left, malformed body) or a failed `Peek`, no call is ever given anything from this conn:
+neither `take` nor `yield` nor `lone` is enabled (finding C06-D30: the code used to close the net.Conn but keep the
+rest of the response in its read buffer, where a caller that was already waiting found it) -/
+theorem no_take_after_read_failure (s : State) (hd : s.rdead = true) (seq seen : Nat) :
+    step s (.take seq) = none ∧ step s (.yield seq seen) = none ∧ step s (.lone seq seen) = none := by
+  simp [step, hd]
+
+theorem read_failure_kills_read_side (s s' : State) (seq : Nat) :
+    (step s (.finish seq .io) = some s' → s'.rdead = true) ∧ (step s (.peekErr seq) = some s' → s'.rdead = true) := by
+  constructor
+  · intro h; simp only [step] at h
+    repeat' split at h
+    all_goals first | (simp only [Option.some.injEq] at h; subst h; rfl) | cases h
+  · intro h; simp only [step] at h
+    repeat' split at h
+    all_goals first | (simp only [Option.some.injEq] at h; subst h; rfl) | cases h
+
+/-- dead stays dead -/
+theorem rdead_is_final (s s' : State) (e : Event) (hd : s.rdead = true) (h : step s e = some s') : s'.rdead = true := by
+  cases e <;> simp only [step] at h
+  all_goals
+    repeat' split at h
+    all_goals first
+      | (simp only [Option.some.injEq] at h; subst h; simp_all; done)
+      | cases h
 
 /-- once closed, always closed: no event re-opens the conn -/
 theorem closed_is_final (s s' : State) (e : Event) (hc : s.closed = true) (h : step s e = some s') :
@@ -701,6 +738,18 @@ theorem truthful_run {stream0 : List Frame} (ht : Truthful stream0) : ∀ (es : 
     · next s1 h1 =>
       exact ih s1 s' (inv_step hi (stepC_step h1)) (total_step htot (stepC_step h1)) (noFailure_step ht hi htot hn h1) h
 
+theorem rdead_closed_runC : ∀ (es : List Event) (s s' : State),
+    (s.rdead = true → s.closed = true) → runFromC s es = some s' → (s'.rdead = true → s'.closed = true) := by
+  intro es
+  induction es with
+  | nil => intro s s' hrc h; simp [runFromC] at h; subst h; exact hrc
+  | cons e es ih =>
+    intro s s' hrc h
+    simp only [runFromC] at h
+    split at h
+    · cases h
+    · next s1 h1 => exact ih s1 s' (rdead_closed_step s s1 e hrc (stepC_step h1)) h
+
 /-- **truthful_broker_never_strands_waiters.**  If the broker answers only written requests and none of them
 twice (it may still reorder and delay as it likes), then in every reachable state of an open conn:
 (1) no call has failed; (3) `io.ErrNoProgress` cannot happen (`lone` is not enabled);
@@ -717,6 +766,11 @@ theorem truthful_broker_never_strands_waiters (stream0 : List Frame) (ht : Truth
   obtain ⟨hi, htot, hn⟩ := truthful_run ht es (init stream0) s (inv_init stream0) h0t h0n h
   refine ⟨hn hopen, ?_, fun seq seen hc => lone_disabled ht hi htot hn hopen seq seen hc⟩
   intro hl f rest hs j hj1 hjn hid
+  have hrd : s.rdead = false := by
+    have := rdead_closed_runC es (init stream0) s (by simp [init]) h
+    cases hd : s.rdead with
+    | false => rfl
+    | true => rw [this hd] at hopen; cases hopen
   cases hcj : s.calls j with
   | none => have := htot j hj1 hjn; rw [hcj] at this; cases this
   | some c =>
@@ -730,7 +784,7 @@ theorem truthful_broker_never_strands_waiters (stream0 : List Frame) (ht : Truth
         | err => exact absurd hst hne
         | resp p g => exact (head_not_taken ht hi hs hcj (by rw [hst]; rfl) hid).elim
         | kafkaErr p g => exact (head_not_taken ht hi hs hcj (by rw [hst]; rfl) hid).elim
-    simp [step, hl, statusOf, hcj, hw, hs, hid]
+    simp [step, hl, hrd, statusOf, hcj, hw, hs, hid]
 
 /-- the hypothesis is needed: one duplicated answer and two later callers — both waiters see a frame that belongs
 to neither, both can only yield (neither is alone), for ever -/
